@@ -2,6 +2,7 @@ package checks
 
 import (
 	"context"
+	"errors"
 	"fmt"
 	"io"
 	gofs "io/fs"
@@ -11,6 +12,7 @@ import (
 	"sort"
 	"strings"
 	"sync/atomic"
+	"syscall"
 	"testing"
 
 	"github.com/moby/patternmatcher"
@@ -231,6 +233,19 @@ func c18Check(env *h.Env, c *c18Case) error {
 	if err != nil {
 		if strings.Contains(err.Error(), "does not terminate") {
 			return fmt.Errorf("FollowLinks(%q) made more than %d Walk calls on a %d-entry tree: it does not terminate", c.Requests, cfs.limit, len(c.Tree.Nodes))
+		}
+		if globNames && errors.Is(err, syscall.ELOOP) {
+			// a request with a wildcard in a middle component is kept as a literal path
+			// (listed finding); when an entry really carries that name and is a cyclic
+			// symlink, the literal lstat runs into the cycle inside the kernel
+			for _, rq := range c.Requests {
+				comps := strings.Split(strings.Trim(path.Clean("/"+rq), "/"), "/")
+				for i, cm := range comps {
+					if hasGlob(cm) && i < len(comps)-1 {
+						return env.Known("followlinks-middle-wildcard-not-followed", "FollowLinks(%q) on a tree with an entry literally named like the middle wildcard component %q: %v", c.Requests, cm, err)
+					}
+				}
+			}
 		}
 		return fmt.Errorf("FollowLinks(%q) failed: %v", c.Requests, err)
 	}
